@@ -199,10 +199,10 @@ pub fn hx_plan(prop: &'static str, tier: &str) -> Vec<HxCfg> {
             } else {
                 vec![
                     wall(r(all_ops(a3(prop, "3 ids, all ops"))), 600),
-                    wall(r(depth(all_ops(a3x(prop, "3 ids, 2 labels, 2 data, all ops")), 9)), 1200),
+                    wall(r(depth(all_ops(a3x(prop, "3 ids, 2 labels, 2 data, all ops")), if prop == "C09" { 8 } else { 11 })), 1200),
                     wall(r(depth(enc("3 ids, 3 label kinds, 5 data encodings", 2, 3, &[0, 1, 2]), 7)), 1200),
                     wall(r(depth(enc("3 ids, 3 label kinds, 5 data encodings, Sodg<1>", 1, 3, &[0, 1, 2]), 7)), 900),
-                    wall(r(depth(all_ops(a4(prop, "4 ids, all ops")), 8)), 1200),
+                    wall(r(depth(all_ops(a4(prop, "4 ids, all ops")), if prop == "C09" { 7 } else { 9 })), 1200),
                     wall(r(depth(HxCfg::new(prop, "ids 0,5,254,255 in 256 slots, Sodg<16>", 16, 256, &[0, 5, 254, 255], &[0], &[0, 1]), 5)), 1200),
                     wall(r(seeded5(prop, "5 ids from seeds", 4)), 900),
                 ]
@@ -219,8 +219,9 @@ pub fn hx_plan(prop: &'static str, tier: &str) -> Vec<HxCfg> {
             } else {
                 vec![
                     wall(c(all_ops(a3(prop, "3 ids, all ops"))), 600),
-                    wall(c(depth(all_ops(a3x(prop, "3 ids, 2 labels, 2 data, all ops")), 9)), 1500),
-                    wall(c(depth(all_ops(a4(prop, "4 ids, all ops")), 8)), 1500),
+                    wall(c(depth(all_ops(a3x(prop, "3 ids, 2 labels, 2 data, all ops")), 11)), 1500),
+                    wall(c(depth(all_ops(a4(prop, "4 ids, all ops")), 9)), 1500),
+                    wall(c(seeded5(prop, "5 ids from seeds", 4)), 900),
                     wall(c(depth(a256(prop, "ids 0,5,254,255 in 256 slots, Sodg<16>"), 5)), 900),
                 ]
             }
@@ -243,9 +244,9 @@ pub fn hx_plan(prop: &'static str, tier: &str) -> Vec<HxCfg> {
             } else {
                 vec![
                     wall(p(all_ops(a3(prop, "3 ids, all ops"))), 600),
-                    wall(p(depth(all_ops(a3x(prop, "3 ids, 2 labels, 2 data, all ops")), 8)), 1500),
+                    wall(p(depth(all_ops(a3x(prop, "3 ids, 2 labels, 2 data, all ops")), 10)), 1500),
                     wall(p(depth(HxCfg::new(prop, "3 ids, 3 label kinds, 4 data (8, 9, 0 and 17 bytes)", 3, 3, &[0, 1, 2], &[0, 1, 2], &[0, 1, 2, 6]), 7)), 1200),
-                    wall(p(depth(a4(prop, "4 ids"), 9)), 1500),
+                    wall(p(depth(a4(prop, "4 ids"), 10)), 1500),
                     wall(p(depth(HxCfg::new(prop, "ids 0,2,5 in 7 slots (never-added slots in between)", 2, 7, &[0, 2, 5], &[0, 3], &[3]), 7)), 900),
                     wall(p(seeded5(prop, "5 ids from seeds", 4)), 900),
                 ]
